@@ -457,6 +457,11 @@ class Rod1D(ExactSolver):
 
     def __init__(self, **kwargs):
         super(Rod1D, self).__init__(**kwargs)
+        if (self.alpha1 == 0 and self.beta1 == 0) or (self.alpha2 == 0 and self.beta2 == 0):
+            raise ValueError("alpha and beta cannot both vanish at one end")
+        if self.alpha1 == 0 and self.alpha2 == 0 and \
+                self.gamma1 / self.beta1 != self.gamma2 / self.beta2:
+            raise ValueError("The flux at either end of rod must be equal")
 
         self.kn = np.zeros(shape=self.Nsum)
         self.An = np.zeros(shape=self.Nsum)
